@@ -28,7 +28,15 @@ func child(fallback string) {
 		fmt.Println("nolistener")
 		return
 	}
-	fmt.Println("listener=" + l.Addr().String())
+	// while the service holds its listener, a filesystem socket it listens on must exist under its path
+	exists := "-"
+	if a := l.Addr().String(); strings.HasPrefix(a, "/") {
+		exists = "0"
+		if _, err := os.Lstat(a); err == nil {
+			exists = "1"
+		}
+	}
+	fmt.Println("listener=" + l.Addr().String() + " exists=" + exists)
 	l.Close()
 }
 
@@ -46,6 +54,8 @@ func runCase(n int, line string) string {
 	f := strings.Fields(line)
 	pidmode, fds, names, kinds := f[0], f[1], f[2], f[3]
 	fallback := fmt.Sprintf("@vrf-act-fb-%d-%d", os.Getpid(), n)
+	fspath, fsidx := "", -1
+	var fsinfo os.FileInfo
 	var files []*os.File
 	var addrs []string
 	var closers []func()
@@ -62,6 +72,28 @@ func runCase(n int, line string) string {
 				files = append(files, fl)
 				addrs = append(addrs, name)
 				closers = append(closers, func() { l.Close(); fl.Close() })
+			case "S":
+				// a filesystem socket; the address given to the service names the same path (as a unit file and its service agree on one path)
+				dir, err := os.MkdirTemp("", "vactS")
+				if err != nil {
+					return "X tempdir " + err.Error()
+				}
+				name := dir + "/s.sock"
+				l, err := net.Listen("unix", name)
+				if err != nil {
+					os.RemoveAll(dir)
+					return "X listen " + err.Error()
+				}
+				l.(*net.UnixListener).SetUnlinkOnClose(false)
+				fl, _ := l.(*net.UnixListener).File()
+				files = append(files, fl)
+				addrs = append(addrs, name)
+				if fspath == "" {
+					fspath, fsidx = name, i
+					fsinfo, _ = os.Lstat(name)
+					fallback = name
+				}
+				closers = append(closers, func() { l.Close(); fl.Close(); os.RemoveAll(dir) })
 			case "f":
 				fl, _ := os.CreateTemp("", "vact")
 				os.Remove(fl.Name())
@@ -112,7 +144,23 @@ func runCase(n int, line string) string {
 	if !strings.HasPrefix(res, "listener=") {
 		return "child:" + res
 	}
-	addr := strings.TrimPrefix(res, "listener=")
+	rf := strings.Fields(strings.TrimPrefix(res, "listener="))
+	addr, exists := rf[0], "-"
+	if len(rf) > 1 {
+		exists = strings.TrimPrefix(rf[1], "exists=")
+	}
+	if fspath != "" && addr == fspath {
+		// same path for the inherited socket and for the fallback: tell them apart by the file itself
+		now, err := os.Lstat(fspath)
+		switch {
+		case exists == "0":
+			return fmt.Sprintf("inherited:%d:socket-file-removed", fsidx)
+		case err == nil && os.SameFile(now, fsinfo):
+			return fmt.Sprintf("inherited:%d", fsidx)
+		default:
+			return "fallback"
+		}
+	}
 	if addr == fallback {
 		return "fallback"
 	}
